@@ -97,7 +97,7 @@ def run(tape, kind):
     sp.clear_registry()
     want_ad = tape.chance('adaptive', 1, 6)
     spec = sp.gen_inference_spec(tape, disc_kinds=('adist',) if want_ad else ('disc', 'dist'),
-                                 ties=False)
+                                 ties=False, far=True)
     if not want_ad:
         d = [n for n in spec['nodes'] if n['name'] == 'd'][0]
         if d['kind'] == 'disc' and tape.chance('lattice', 1, 2):
@@ -109,10 +109,24 @@ def run(tape, kind):
     out.sample = {'spec': sp.describe_spec(spec), 'workload': {k: v for k, v in wl.items()},
                   'schedule': sched}
 
+    # optionally both executions store outputs in an (in-memory) OutputPool of their own: the
+    # pool is written at consumption and read at submission, so it is one more place where the
+    # result of a cancelled speculative batch could survive (store sets without parameters;
+    # whether pools are transparent at all is C05's business)
+    pool_stores = None
+    if wl['method'] in ('rejection', 'smc') and tape.chance('with_pool', 1, 4):
+        cands = ['sim'] + list(spec['sums']) + [spec['disc']]
+        pool_stores = [c for c in cands if tape.chance('pool_store', 1, 2)] or [spec['disc']]
+        out.probes['run_with_pool'] += 1
+        out.sample['pool_stores'] = pool_stores
+
+    def mkpool():
+        return elfi.OutputPool(list(pool_stores)) if pool_stores else None
+
     # reference execution: native client, one batch at a time
     ref_out = Outcome()
     sp.REC.reset(None)
-    ref = sr.SamplerRun(tape, ref_out, spec, wl, sr.REFERENCE_SCHED, quiet=True)
+    ref = sr.SamplerRun(tape, ref_out, spec, wl, sr.REFERENCE_SCHED, quiet=True, pool=mkpool())
     ref_res = do_calls(ref, wl)
     if ref_out.inconclusive:
         out.inconclusive = True
@@ -121,7 +135,7 @@ def run(tape, kind):
 
     # simulated execution
     sp.REC.reset(None)
-    run_ = sr.SamplerRun(tape, out, spec, wl, sched)
+    run_ = sr.SamplerRun(tape, out, spec, wl, sched, pool=mkpool())
     res = do_calls(run_, wl)
     if out.inconclusive:
         return out
